@@ -256,6 +256,15 @@ def matrix_protos():
     j += 1
     mk(alpha_tag('Mm', j), [dyn('Kind'), Field('match', 'Body', key='Kind', pairs=[(['A,B', 'C D'], 'Logon'), (['E:F'], 'Logout'), (['', '[x]', '{y}'], 'Beat')]), num('Post', 'u16')],
        subs=[('Logon', [dyn('User')]), ('Logout', [num('Code', 'u8')]), ('Beat', [])])
+    # the match field is the LAST thing on the wire and one alternative is empty (the message can end right behind the key)
+    j += 1
+    mk(alpha_tag('Mm', j), [num('Seq', 'u32'), num('Kind', 'u16'), Field('match', 'Body', key='Kind', pairs=[([1], 'Logon'), ([2], 'Beat'), ([3, 4], 'Beat')])],
+       subs=[('Logon', [dyn('User')]), ('Beat', [])])
+    # char[n] keys whose own padding differs from the configured one
+    for pad, cfg in ((('left', '0'), None), (('right', '0'), {'FixedStringPadFromLeft': 'true'}), (('right', 'nul'), {'FixedStringPadChar': "'0'"}), (None, {'FixedStringPadChar': "'0'", 'FixedStringPadFromLeft': 'true'})):
+        j += 1
+        mk(alpha_tag('Mm', j), [fix('Kind', 4, pad=pad), Field('match', 'Body', key='Kind', pairs=[(['A'], 'Logon'), (['BB', 'CCC'], 'Logout'), (['DDDD'], 'Beat')]), num('Post', 'u16')],
+           subs=[('Logon', [dyn('User')]), ('Logout', [num('Code', 'u8')]), ('Beat', [])], options=cfg)
     # two match fields keyed by the SAME field
     j += 1
     mk(alpha_tag('Mm', j), [num('Kind', 'u8'),
@@ -322,6 +331,12 @@ def matrix_protos():
         j += 1
         mk(alpha_tag('Mc', j), [num('MsgType', 'u16'), Field('cksum', 'HdrSum', ntype='u8', algo=a1, prefixed=False, typed=True), dyn('Text'),
                                 Field('cksum', 'Trailer', ntype='u32', algo=a2, prefixed=(le is not None), typed=True)], options={'LittleEndian': le} if le else None)
+    # the checksum is the FIRST field of the message (it covers zero bytes) / the only field
+    j += 1
+    mk(alpha_tag('Mc', j), [Field('cksum', 'Lead', ntype='u32', algo='CRC32', prefixed=False, typed=True), num('MsgType', 'u16'), dyn('Text'),
+                            Field('cksum', 'Trail', ntype='u16', algo='CRC16', prefixed=True, typed=True)])
+    j += 1
+    mk(alpha_tag('Mc', j), [Field('cksum', 'Only', ntype='u8', algo='SUM8', prefixed=False, typed=True)], options={'LittleEndian': 'true'})
     # a checksum field INSIDE the payload the length field measures (match payload and plain member)
     j += 1
     mk(alpha_tag('Mc', j), [num('MsgType', 'u16'), Field('len', 'BodyLen', ntype='u32', target='Body', prefixed=False, typed=True),
@@ -607,6 +622,9 @@ def gen_value(proto, p, f, rng, shape, alt_counter, depth=0):
                 return _str_for(rng, 'full', min(PREFIX_MAX[cfg['sp']], 128))
             if shape == 'long' and cfg['sp'] != 'u8':
                 return _str_for(rng, 'full', 40000 if depth == 0 else 300)
+            if shape in ('typical', 'utf8') and rng.random() < 0.15:
+                # white space is content like any other character: blank-only strings, leading / trailing / inner blanks, tab, line feed
+                return rng.choice([' ', '  ', '\t', ' \t ', '\n', ' lead', 'trail ', 'a  b', '\r\n', '\x00', 'nul\x00inside'])
             return _str_for(rng, shape, min(mx, 24))
         if k == 'ref':
             return gen_packet(proto, proto.packet(f.packet), rng, shape, alt_counter, depth + 1)
